@@ -3,6 +3,7 @@ package props
 import (
 	"fmt"
 	"go/types"
+	"regexp"
 	"sort"
 	"strings"
 
@@ -64,6 +65,34 @@ func checkExtractorDispatch(p *core.Program, r *core.Report, rule string) {
 			_, isList = pt.Elem().Underlying().(*types.Slice)
 		}
 	}
+	// variant: the list is looked up per tag in a map of lists held by the converter
+	// (map[tag][]extractor); the loop rule is the same, the completeness rule is D2'
+	var tagMap *ssa.FieldAddr
+	if field == nil {
+		if ld, ok := core.StripConv(call.Call.Value).(*ssa.UnOp); ok {
+			if ia, ok := ld.X.(*ssa.IndexAddr); ok {
+				var lk *ssa.Lookup
+				switch x := core.StripConv(ia.X).(type) {
+				case *ssa.Lookup:
+					lk = x
+				case *ssa.Extract:
+					lk, _ = x.Tuple.(*ssa.Lookup)
+				}
+				if lk != nil && c.Of(lk.Index) == "dom.TagName($1)" {
+					if fl, ok := core.StripConv(lk.X).(*ssa.UnOp); ok {
+						tagMap, _ = fl.X.(*ssa.FieldAddr)
+					}
+				}
+			}
+		}
+		if tagMap != nil {
+			if pt, ok := tagMap.Type().Underlying().(*types.Pointer); ok {
+				if mt, ok := pt.Elem().Underlying().(*types.Map); ok {
+					_, isList = mt.Elem().Underlying().(*types.Slice)
+				}
+			}
+		}
+	}
 	loops, _ := core.NaturalLoops(ve)
 	var loop *core.Loop
 	for _, l := range loops {
@@ -92,6 +121,10 @@ func checkExtractorDispatch(p *core.Program, r *core.Report, rule string) {
 	sort.Strings(desc)
 	r.Add(rule, "every extractor is tried in turn until one recognises the node", p.Pos(call.Pos()), ok,
 		fmt.Sprintf("Extract is called on %s; ways out of the loop: %s", shortVal(recv), strings.Join(desc, "; ")))
+	if tagMap != nil && iface != nil {
+		checkPerTagDispatch(p, r, rule, tagMap, iface)
+		return
+	}
 	if field == nil || iface == nil {
 		return
 	}
@@ -165,3 +198,196 @@ func checkExtractorDispatch(p *core.Program, r *core.Report, rule string) {
 }
 
 func shortQualProps(pk *types.Package) string { return pk.Name() }
+
+// implementationsOf lists the module's concrete types (as pointer types) that implement iface.
+func implementationsOf(p *core.Program, iface *types.Interface) []*types.Named {
+	var out []*types.Named
+	for _, pkg := range p.SSAPkgs {
+		if !core.IsModPkg(pkg.Pkg.Path()) {
+			continue
+		}
+		for _, m := range pkg.Members {
+			tp, isT := m.(*ssa.Type)
+			if !isT {
+				continue
+			}
+			if _, isI := tp.Type().Underlying().(*types.Interface); isI {
+				continue
+			}
+			n, ok := tp.Type().(*types.Named)
+			if ok && (types.Implements(types.NewPointer(n), iface) || types.Implements(n, iface)) {
+				out = append(out, n)
+			}
+		}
+	}
+	sort.Slice(out, func(i, j int) bool { return out[i].String() < out[j].String() })
+	return out
+}
+
+// checkPerTagDispatch (D2'): the converter keeps, per tag, the list of extractors interested in
+// that tag. That offers a node to exactly the extractors that could recognise it when
+//   (a) the constructor fills the map only by `m[t] = append(m[t], e)` in a complete loop over a
+//       list that holds every implementation, nested with a complete loop over
+//       e.RelevantTagNames() (so e is listed under every tag it declares, in list order), and
+//   (b) every implementation's Extract answers nil, before doing anything else, for a node whose
+//       tag is not in the table that its RelevantTagNames enumerates.
+func checkPerTagDispatch(p *core.Program, r *core.Report, rule string, tagMap *ssa.FieldAddr, iface *types.Interface) {
+	c := core.NewCanon(p)
+	ctor := mustInl(p, r, rule, converterPkg+".NewDomConverter")
+	if ctor == nil {
+		return
+	}
+	// (a)
+	var stored ssa.Value
+	nStores := 0
+	for _, in := range instrsOf(ctor) {
+		st, isSt := in.(*ssa.Store)
+		if !isSt {
+			continue
+		}
+		fa, isFA := st.Addr.(*ssa.FieldAddr)
+		if isFA && fa.Field == tagMap.Field && core.NamedOf(fa.X.Type()) != nil && core.NamedOf(fa.X.Type()) == core.NamedOf(tagMap.X.Type()) {
+			nStores++
+			stored = core.StripConv(st.Val)
+		}
+	}
+	mk, isMake := stored.(*ssa.MakeMap)
+	okFill := nStores == 1 && isMake
+	var why []string
+	nUpd := 0
+	var listVal ssa.Value
+	if okFill {
+		for _, ref := range *mk.Referrers() {
+			mu, isMU := ref.(*ssa.MapUpdate)
+			if !isMU {
+				continue
+			}
+			nUpd++
+			key, val := c.Of(mu.Key), c.Of(mu.Value)
+			// key: an element of e.RelevantTagNames(); value: append(m[key], {e}); e: element of a list
+			if !strings.HasPrefix(key, "elem(iface.RelevantTagNames(elem(") {
+				okFill = false
+				why = append(why, "key "+shortVal(key))
+				continue
+			}
+			e := strings.TrimSuffix(strings.TrimPrefix(key, "elem(iface.RelevantTagNames("), "))")
+			if val != "append("+c.Of(mk)+"["+key+"],{"+e+"})" {
+				okFill = false
+				why = append(why, "value "+shortVal(val))
+			}
+			// the loops around the update are complete range loops
+			loops, _ := core.NaturalLoops(ctor)
+			nAround := 0
+			for _, l := range loops {
+				if !l.Body[mu.Block()] {
+					continue
+				}
+				nAround++
+				for _, ex := range loopExits(p, l) {
+					if !(strings.Contains(ex.atom, " < len(") && !ex.val) {
+						okFill = false
+						why = append(why, "loop exit "+shortVal(ex.atom))
+					}
+				}
+			}
+			if nAround != 2 {
+				okFill = false
+				why = append(why, fmt.Sprintf("%d loops around the insertion", nAround))
+			}
+			// the list the outer loop ranges over
+			if call, ok := core.StripConv(mu.Key).(*ssa.UnOp); ok {
+				if ia, ok := call.X.(*ssa.IndexAddr); ok {
+					if rt, ok := core.StripConv(ia.X).(*ssa.Call); ok && rt.Call.IsInvoke() {
+						if ld, ok := core.StripConv(rt.Call.Value).(*ssa.UnOp); ok {
+							if ia2, ok := ld.X.(*ssa.IndexAddr); ok {
+								listVal = core.StripConv(ia2.X)
+							}
+						}
+					}
+				}
+			}
+		}
+	}
+	r.Add(rule, "the per-tag extractor lists are filled by appending every extractor under every tag it declares", p.Pos(ctor.Pos()), okFill && nUpd == 1,
+		fmt.Sprintf("%d stores of the map, %d insertions; %s", nStores, nUpd, strings.Join(why, "; ")))
+	// the list holds every implementation
+	have := map[string]bool{}
+	if sl, ok := listVal.(*ssa.Slice); ok {
+		if al, ok := sl.X.(*ssa.Alloc); ok && al.Referrers() != nil {
+			for _, ref := range *al.Referrers() {
+				if ia, ok := ref.(*ssa.IndexAddr); ok && ia.Referrers() != nil {
+					for _, r2 := range *ia.Referrers() {
+						if s2, ok := r2.(*ssa.Store); ok && s2.Addr == ssa.Value(ia) {
+							if mi, ok := s2.Val.(*ssa.MakeInterface); ok {
+								have[strings.TrimPrefix(types.TypeString(mi.X.Type(), shortQualProps), "*")] = true
+							}
+						}
+					}
+				}
+			}
+		}
+	}
+	impls := implementationsOf(p, iface)
+	var missing []string
+	for _, n := range impls {
+		if !have[types.TypeString(n, shortQualProps)] {
+			missing = append(missing, types.TypeString(n, shortQualProps))
+		}
+	}
+	r.Add(rule, "the converter's extractor list holds every implementation of the extractor interface", p.Pos(ctor.Pos()), len(impls) >= 4 && len(missing) == 0,
+		fmt.Sprintf("%d implementations in the module, missing from the list: %v", len(impls), missing))
+	// (b)
+	for _, n := range impls {
+		name := types.TypeString(n, shortQualProps)
+		ext := p.Func("(*" + n.String() + ").Extract")
+		rel := p.Func("(*" + n.String() + ").RelevantTagNames")
+		if ext == nil || rel == nil {
+			r.Undecided(rule, name+": Extract / RelevantTagNames", "method not found")
+			continue
+		}
+		// the table RelevantTagNames enumerates
+		table := ""
+		for _, in := range instrsOf(p.Inlined(rel)) {
+			if ld, ok := in.(*ssa.UnOp); ok {
+				if g, ok := ld.X.(*ssa.Global); ok {
+					if s, ok := p.GlobalConst(g); ok && (strings.HasPrefix(s, "set‹") || strings.HasPrefix(s, "map‹")) {
+						table = s
+					}
+				}
+			}
+		}
+		if table == "" {
+			r.Undecided(rule, name+".Extract: nil for a tag it does not declare", "RelevantTagNames does not enumerate a private table")
+			continue
+		}
+		// with the edges removed on which the tag was found in the table, nothing but the
+		// tag test itself may execute and every return that stays reachable answers nil
+		ex := p.Inlined(ext)
+		atom := "in(" + table + ",dom.TagName($1))"
+		cut, m := core.CutAtoms(p, ex, regexp.MustCompile(q(atom)), true)
+		nOut, bad := 0, 0
+		if len(m) == 0 {
+			bad++
+		}
+		for _, in := range instrsOf(ex) {
+			if !core.InstrReachable(ex, cut, in) {
+				continue
+			}
+			switch x := in.(type) {
+			case *ssa.Return:
+				nOut++
+				if len(x.Results) != 1 || !core.IsNilConst(core.StripConv(x.Results[0])) {
+					bad++
+				}
+			case ssa.CallInstruction:
+				if _, isB := x.Common().Value.(*ssa.Builtin); !isB && !core.IsCallTo(x, "github.com/go-shiori/dom.TagName") {
+					bad++
+				}
+			case *ssa.Store, *ssa.MapUpdate:
+				bad++
+			}
+		}
+		r.Add(rule, name+".Extract answers nil at once for a node whose tag it does not declare", p.Pos(ext.Pos()), nOut >= 1 && bad == 0,
+			fmt.Sprintf("%d returns reachable with the tag outside %s; %d calls, stores or non-nil answers reachable there", nOut, shortVal(table), bad))
+	}
+}
